@@ -64,7 +64,7 @@ theorem sumOver_flatten (w : Nat → Nat) (n : Nat) (f : Nat → List Nat) :
     omega
 
 theorem wsum_perm (w : Nat → Nat) {a b : List Nat} (h : a.Perm b) : wsum w a = wsum w b := by
-  unfold wsum; exact (h.map w).sum_eq
+  unfold wsum; exact (h.map w).sum_nat
 
 theorem start_weight {cfg : Cfg} {srcIds : Nat → List Nat} {contIds : List Nat} (h : Start cfg srcIds contIds)
     (w : Nat → Nat) : weight cfg w (init srcIds contIds) = wsum w (List.range cfg.N) := by
@@ -391,7 +391,9 @@ def exRun : List Label :=
    .execReemit 2 [true, false] 3, .enqueue 3, .acquire 3,
    .execTraverse 3 [1] [], .checkTermination]
 
-example : Start exCfg (fun _ => [0, 1, 2]) [] := by decide
+example : Start exCfg (fun _ => [0, 1, 2]) [] := by
+  show ([0, 1, 2] ++ [] : List Nat).Perm [0, 1, 2]
+  exact List.Perm.refl _
 
 example : (run exCfg (init (fun _ => [0, 1, 2]) []) exRun).isSome = true := by decide
 
